@@ -37,6 +37,8 @@ PROF_T = gen.Profile(kinds=["task"] * 7 + ["region", "state", "idle"],
                      max_looms=2, max_procs=3, max_threads=2, max_cpus=3, steps=(15, 90), modes=("legal",), lint=None,
                      ranks=True)
 PROF_A = mkprof(False)
+PROF_ALL = mkprof(False)          # the same with every model forced on (-a)
+PROF_ALL.extra_flags = ("-a",)
 PROF_B = mkprof(True)
 PROF_B.no_bare_pause = False
 
@@ -117,4 +119,5 @@ def parts(tier):
         Part("accepted-traces", run, strategy=lambda ctx: gen.history(PROF_A), budget={"quick": 3500, "thorough": 45000}),
         Part("accepted-traces-tasks", run, strategy=lambda ctx: gen.history(PROF_T), budget={"quick": 2500, "thorough": 30000}),
         Part("accepted-traces-breakdown", run, strategy=lambda ctx: gen.history(PROF_B), budget={"quick": 1500, "thorough": 20000}),
+        Part("accepted-traces-all-models-forced", run, strategy=lambda ctx: gen.history(PROF_ALL), budget={"quick": 1200, "thorough": 15000}),
     ]
